@@ -13,10 +13,12 @@ import AttrsModel.Core
 namespace Attrs.C19.Filt
 open Lean
 
-/-- an `Attribute` object up to `==`: its name and a key standing for all its other compared settings -/
+/-- an `Attribute` object up to `==`: its name, its `__init__` alias (`_x` → `x`, or an explicit `alias=`) and a
+    key standing for all its other compared settings -/
 structure AttrId where
-  name : String
-  sig  : String
+  name  : String
+  alias : String
+  sig   : String
   deriving DecidableEq, Repr, FromJson, ToJson, Inhabited
 
 inductive What where
